@@ -191,13 +191,13 @@ def load_modules():
 
 
 # ------------------------------------------------------------------ the calls
-def reader_of(dirs):
+def reader_of(dirs, fmt="csv"):
     from rpft import converters
     from rpft.parsers.sheets import CompositeSheetReader
 
     rd = CompositeSheetReader()
     for d in dirs:
-        rd.add_reader(converters.create_sheet_reader("csv", d))
+        rd.add_reader(converters.create_sheet_reader(fmt, d))
     return rd
 
 
@@ -221,7 +221,7 @@ def do_op(op, kept, scratch, n):
             kw["data_models"] = op["data_models"]
         if op.get("tags") is not None:
             kw["tags"] = op["tags"]          # tags None: the function's own default argument is used
-        r = converters.create_flows(op["dirs"], outf, "csv", **kw)
+        r = converters.create_flows(op["dirs"], outf, op.get("fmt", "csv"), **kw)
         res = {"value": r}
         if outf:
             with open(outf, "rb") as f:
@@ -233,11 +233,14 @@ def do_op(op, kept, scratch, n):
             kw["data_models"] = op["data_models"]
         if op.get("tags") is not None:
             kw["tags"] = op["tags"]
-        return {"value": converters.save_data_sheets(op["dirs"], None, "csv", **kw)}
+        return {"value": converters.save_data_sheets(op["dirs"], None, op.get("fmt", "csv"), **kw)}
     if k == "parse_keep":
         from rpft.parsers.creation.contentindexparser import ContentIndexParser
 
-        c = ContentIndexParser(reader_of(op["dirs"])).parse_all()   # default TagMatcher, default data models
+        if op.get("data_models"):
+            c = ContentIndexParser(reader_of(op["dirs"], op.get("fmt", "csv")), op["data_models"]).parse_all()
+        else:
+            c = ContentIndexParser(reader_of(op["dirs"], op.get("fmt", "csv"))).parse_all()   # default TagMatcher, default data models
         kept[op["id"]] = c
         return {"flows": [f.name for f in c.flows]}
     if k == "load_keep":
@@ -260,7 +263,7 @@ def do_op(op, kept, scratch, n):
         rows = c.flows[j].to_rows(bool(op.get("numbered")))
         return {"flow": j, "value": [r.dict() for r in rows]}
     if k == "convert":
-        return {"text": converters.convert_to_json(op["dir"], "csv")}
+        return {"text": converters.convert_to_json(op["dir"], op.get("fmt", "csv"))}
     if k == "flows_to_sheets":
         o = os.path.join(scratch, f"sheets{n}")
         os.makedirs(o, exist_ok=True)
